@@ -169,6 +169,16 @@ def oracle(ctx, rng, n):
                 a_['flowrate'] = round(f_, 5)
         else:
             gi.random_setup_options(rng, base, p=0.2)
+        if ci % 3 == 2 or (ci % 3 == 0 and rng.random() < 0.5):
+            # boundary conditions of all three kinds mixed within a type, with different targets: an assembly whose flow rate follows
+            # from an outlet temperature or a temperature rise is set up from ITS OWN target only (the last position always has one)
+            for k_, a_ in enumerate(base['assignment']):
+                if k_ == len(base['assignment']) - 1 or rng.random() < 0.5:
+                    bc_ = rng.choice(['outlet_temp', 'delta_temp'])
+                    a_.pop('flowrate', None)
+                    rise_ = round(rng.uniform(40, 220), 2)
+                    a_[bc_] = rise_ + (base['core']['coolant_inlet_temp'] if bc_ == 'outlet_temp' else 0.0)
+            ctx.count("cores_with_mixed_boundary_conditions")
         if ci % 3 != 0 and rng.random() < 0.6:
             # correlated parameters re-evaluated only when the coolant properties moved by more than a tolerance: the reference
             # values of that test are per-assembly state, too
